@@ -37,8 +37,18 @@ pub const INJECTED: [&str; 13] = [
     "State<'_, Vec<String>>",
 ];
 pub const CHANNEL_SPELLINGS: [&str; 3] = ["Channel<i32>", "tauri::ipc::Channel<String>", "Channel<Vec<u8>>"];
-pub const NAMES: [&str; 9] = ["a", "user_id", "user_id2", "x_1", "_x", "a__b", "type_", "r#type", "http2_url"];
+pub const NAMES: [&str; 11] = ["a", "user_id", "user_id2", "x_1", "_x", "a__b", "type_", "r#type", "http2_url", "top_3d_models", "on_2fa_code"];
 pub const PARAM_CASES: [&str; 6] = ["camelCase", "snake_case", "PascalCase", "SCREAMING_SNAKE_CASE", "kebab-case", "SCREAMING-KEBAB-CASE"];
+
+/// arguments of the command macro: (text after `tauri::command`, the key case it makes Tauri use)
+pub const MACRO_ARGS: [(&str, Option<&str>); 6] = [
+    ("", None),
+    ("(rename_all = \"snake_case\")", Some("snake")),
+    ("(rename_all = \"camelCase\")", Some("camel")),
+    ("(async, rename_all = \"snake_case\")", Some("snake")),
+    ("(root = \"crate\")", None),
+    ("(root = \"crate\", rename_all = \"snake_case\")", Some("snake")),
+];
 
 #[derive(Debug, Clone, Serialize, Deserialize)]
 pub struct Case {
@@ -46,6 +56,9 @@ pub struct Case {
     pub params: Vec<(PKind, usize, usize)>,
     pub case: Option<String>,
     pub zod: bool,
+    /// index into MACRO_ARGS
+    #[serde(default)]
+    pub macro_arg: usize,
 }
 
 impl Case {
@@ -58,12 +71,23 @@ impl Case {
         }
     }
     pub fn project(&self) -> Project {
-        let mut s = String::from("use tauri::{AppHandle, State, Window, WebviewWindow, Runtime};\nuse tauri::ipc::Channel;\npub struct AppState;\n\n#[tauri::command]\npub async fn do_thing<R: Runtime>(");
+        let mut s = String::from("use tauri::{AppHandle, State, Window, WebviewWindow, Runtime};\nuse tauri::ipc::Channel;\npub struct AppState;\n\n");
+        s.push_str(&format!("#[tauri::command{}]\npub async fn do_thing<R: Runtime>(", MACRO_ARGS[self.macro_arg].0));
         for p in &self.params {
             s.push_str(&format!("{}: {}, ", NAMES[p.1], self.rust_type(p)));
         }
         s.push_str(") -> Result<i32, String> { Ok(1) }\n");
         Project::single(s)
+    }
+    /// the key Tauri reads for a Rust parameter name: the macro's rename_all argument, else the
+    /// configured parameter case, else Tauri's default (lower camel case)
+    pub fn key_of(&self, name: &str) -> String {
+        use heck::ToSnakeCase;
+        match (MACRO_ARGS[self.macro_arg].1, &self.case) {
+            (Some("snake"), _) => name.trim_start_matches("r#").to_snake_case(),
+            (Some(_), _) | (None, None) => naming::tauri_arg_key(name),
+            (None, Some(c)) => naming::serde_field(c, name),
+        }
     }
     /// expected key -> may be omitted?
     pub fn expected(&self) -> BTreeMap<String, bool> {
@@ -72,11 +96,7 @@ impl Case {
             if matches!(p.0, PKind::Injected(_)) {
                 continue;
             }
-            let key = match &self.case {
-                None => naming::tauri_arg_key(NAMES[p.1]),
-                Some(c) => naming::serde_field(c, NAMES[p.1]),
-            };
-            m.insert(key, p.0 == PKind::Optional);
+            m.insert(self.key_of(NAMES[p.1]), p.0 == PKind::Optional);
         }
         m
     }
@@ -283,10 +303,7 @@ pub fn eval(case: &Case) -> (Vec<Violation>, bool, Option<String>) {
         .params
         .iter()
         .filter(|p| p.0 == PKind::Channel)
-        .map(|p| match &case.case {
-            None => naming::tauri_arg_key(NAMES[p.1]),
-            Some(c) => naming::serde_field(c, NAMES[p.1]),
-        })
+        .map(|p| case.key_of(NAMES[p.1]))
         .collect();
     let keyset = |m: &BTreeMap<String, bool>| m.keys().cloned().collect::<BTreeSet<String>>();
     if keyset(&obs.invoked) != keyset(&expected) {
@@ -337,11 +354,12 @@ fn mk(case: &Case, class: &str, detail: String) -> Violation {
             k => format!("{:?}:{}", k, NAMES[p.1]),
         })
         .collect();
-    Violation::new("C04", class, format!("fn do_thing({}) case={:?} {} mode: {}", sig.join(", "), case.case, if case.zod { "zod" } else { "none" }, detail), serde_json::to_value(case).unwrap())
+    Violation::new("C04", class, format!("#[tauri::command{}] fn do_thing({}) case={:?} {} mode: {}", MACRO_ARGS[case.macro_arg].0, sig.join(", "), case.case, if case.zod { "zod" } else { "none" }, detail), serde_json::to_value(case).unwrap())
         .field("params", kinds.join(" "))
         .field("case", case.case.clone().unwrap_or("-".into()))
         .field("mode", if case.zod { "zod" } else { "none" })
-        .rank(case.params.len() as u64)
+        .field("macro", MACRO_ARGS[case.macro_arg].0)
+        .rank(case.params.len() as u64 * 2 + if case.macro_arg > 0 { 1 } else { 0 })
 }
 
 pub fn replay(case: &Value) -> Vec<Violation> {
@@ -363,7 +381,24 @@ pub fn run(tier: Tier) -> CheckResult {
             for c in &cases_opt {
                 for zod in [false, true] {
                     for variant in 0..(if matches!(k, PKind::Injected(_)) { 1 } else { 3 }) {
-                        cases.push(Case { params: vec![(*k, n, variant)], case: c.clone(), zod });
+                        cases.push(Case { params: vec![(*k, n, variant)], case: c.clone(), zod, macro_arg: 0 });
+                    }
+                }
+            }
+        }
+    }
+    // (1b) every macro argument form x frontend kind x name x {default, snake_case, PascalCase} x modes
+    for macro_arg in 1..MACRO_ARGS.len() {
+        for k in [PKind::Value, PKind::Optional, PKind::Channel] {
+            for n in 0..NAMES.len() {
+                use heck::ToSnakeCase;
+                let bare = NAMES[n].trim_start_matches("r#");
+                if MACRO_ARGS[macro_arg].1 == Some("snake") && bare.to_snake_case() != bare {
+                    continue;
+                }
+                for c in [None, Some("snake_case".to_string()), Some("PascalCase".to_string())] {
+                    for zod in [false, true] {
+                        cases.push(Case { params: vec![(k, n, 0)], case: c.clone(), zod, macro_arg });
                     }
                 }
             }
@@ -400,8 +435,15 @@ pub fn run(tier: Tier) -> CheckResult {
                 continue;
             }
             let c = cases_opt[i % cases_opt.len()].clone();
-            cases.push(Case { params: params.clone(), case: c.clone(), zod: false });
-            cases.push(Case { params, case: c, zod: true });
+            // the macro's own arguments rotate over the lists; names on which heck's snake_case is
+            // not the identity (`a__b`, `_x`) stay out of the snake cases
+            use heck::ToSnakeCase;
+            let mut macro_arg = (i / cases_opt.len()) % MACRO_ARGS.len();
+            if MACRO_ARGS[macro_arg].1 == Some("snake") && params.iter().any(|p| NAMES[p.1].trim_start_matches("r#").to_snake_case() != NAMES[p.1].trim_start_matches("r#")) {
+                macro_arg = 0;
+            }
+            cases.push(Case { params: params.clone(), case: c.clone(), zod: false, macro_arg });
+            cases.push(Case { params, case: c, zod: true, macro_arg });
         }
     }
     let results: Vec<Option<(Vec<Violation>, bool, Option<String>)>> = cases.par_iter().map(|c| if deadline.passed() { None } else { Some(eval(c)) }).collect();
@@ -432,12 +474,12 @@ pub fn run(tier: Tier) -> CheckResult {
         ks.sort();
         ks.dedup();
         // a longer list is derived if a single-parameter case with one of its parameters already fails
-        let singles_failing = ks.iter().any(|k| seen.contains(&format!("{}|{}|{}|{}", v.class, k, v.fields["case"], v.fields["mode"])));
-        if v.rank > 1 && singles_failing {
+        let singles_failing = ks.iter().any(|k| seen.contains(&format!("{}|{}|{}|{}|{}", v.class, k, v.fields["case"], v.fields["mode"], v.fields["macro"])));
+        if v.fields["params"].split(' ').count() > 1 && singles_failing {
             res.derived += 1;
             continue;
         }
-        let key = format!("{}|{}|{}|{}", v.class, ks.join(" "), v.fields["case"], v.fields["mode"]);
+        let key = format!("{}|{}|{}|{}|{}", v.class, ks.join(" "), v.fields["case"], v.fields["mode"], v.fields["macro"]);
         if seen.insert(key) {
             res.violations.push(v);
         } else {
@@ -450,7 +492,7 @@ pub fn run(tier: Tier) -> CheckResult {
     res.coverage.set("cases", cases.len() as u64);
     res.coverage.set("exhaustive", exhaustive);
     res.coverage.set("samples", json!(cases.iter().step_by((cases.len() / 5).max(1)).take(5).collect::<Vec<_>>()));
-    res.coverage.set("rule", "one command per project; parameter lists: every single parameter kind (value, Option, Channel<T> in 3 spellings, 13 spellings of injected parameters) x 9 names x {default, 6 naming-case settings} x both modes, plus all ordered lists of length 2..3 (quick) / 2..4 (thorough) over the kinds menu; oracle: key sets of the declared parameter type, of the parameter schema and of the object expression reaching invoke (spreads and safeParse results resolved through the parsed AST) equal {case(name) | frontend-filled parameter}, case = heck lowerCamelCase by default (what tauri-macros applies) / serde's field rule otherwise; omittable iff Option. Non-trivial = accepted and output parsed.");
+    res.coverage.set("rule", "one command per project; parameter lists: every single parameter kind (value, Option, Channel<T> in 3 spellings, 13 spellings of injected parameters) x 11 names x {default, 6 naming-case settings} x both modes, plus all ordered lists of length 2..3 (quick) / 2..4 (thorough) over the kinds menu; oracle: key sets of the declared parameter type, of the parameter schema and of the object expression reaching invoke (spreads and safeParse results resolved through the parsed AST) equal {case(name) | frontend-filled parameter}, case = heck lowerCamelCase by default (what tauri-macros applies) / serde's field rule for a configured case / the macro's own rename_all argument (#[tauri::command(rename_all = \"snake_case\")], with async / root arguments beside it) before either; omittable iff Option. Non-trivial = accepted and output parsed.");
     res.assumptions = vec!["parameter names are snake_case identifiers (on those heck and serde's camelCase agree)".into()];
     res
 }
